@@ -259,3 +259,273 @@ Lemma no_deadlock : forall hs tr s,
 Proof.
   intros. apply no_deadlock_state; auto. eapply run_WL; eauto. apply WL_init; auto.
 Qed.
+
+(* ---------------------------------------------------------------- termination *)
+
+Lemma map_upd : forall A B (f : A -> B) l i x, map f (upd l i x) = upd (map f l) i (f x).
+Proof. induction l; destruct i; simpl; intros; auto. f_equal. auto. Qed.
+
+Lemma list_sum_upd : forall l i x y,
+  nth_error l i = Some y -> list_sum (upd l i x) + y = list_sum l + x.
+Proof.
+  induction l; destruct i; simpl; intros; try discriminate.
+  - inv H. lia.
+  - specialize (IHl _ x _ H). lia.
+Qed.
+
+Lemma list_sum_snoc : forall l x, list_sum (l ++ [x]) = list_sum l + x.
+Proof. intros. rewrite list_sum_app. simpl. lia. Qed.
+
+Lemma exec_total : forall s i s', exec s i = Some s' -> S (total s') = total s.
+Proof.
+  intros s i s' He.
+  assert (exists a r, nth_error (thr s) i = Some (a :: r)) as (a & r & Hr).
+  { unfold exec in He. destruct (nth_error (thr s) i) as [[|x r]|]; try discriminate. eauto. }
+  pose proof (exec_thr _ _ _ _ _ Hr He) as Hthr.
+  unfold total. rewrite Hthr.
+  assert (Hm : nth_error (map psize (thr s)) i = Some (psize (a :: r))) by (apply map_nth_error; auto).
+  pose proof (list_sum_upd _ _ (psize r) _ Hm) as Hs.
+  assert (Hp : psize (a :: r) = ssize a + psize r) by reflexivity.
+  destruct a; try (rewrite map_upd; simpl in Hp; lia).
+  rewrite map_app, list_sum_app, map_upd. simpl.
+  change (list_sum (map ssize body)) with (psize body) in Hp. simpl in Hp.
+  change (list_sum (map ssize body)) with (psize body) in Hp. lia.
+Qed.
+
+Lemma run_length : forall s tr s', run s tr s' -> List.length tr + total s' = total s.
+Proof.
+  induction 1; simpl; auto. apply exec_total in H0. lia.
+Qed.
+
+(* ---------------------------------------------------------------- serializability (sections) *)
+
+Lemma accs_cons : forall i a tr,
+  accs ((i, a) :: tr) = match a with Access => i :: accs tr | _ => accs tr end.
+Proof. intros. unfold accs. simpl. destruct a; reflexivity. Qed.
+
+Lemma serial_accs_cons : forall i k secs,
+  serial_accs ((i, k) :: secs) = repeat i k ++ serial_accs secs.
+Proof. reflexivity. Qed.
+
+Definition owner_prefix (s : st) (tr : list ev) : list nat :=
+  match own s with None => [] | Some i => repeat i (cnt i tr) end.
+
+Lemma sections_serial_gen : forall s tr s',
+  run s tr s' -> WL s -> accs tr = owner_prefix s tr ++ serial_accs (sections tr).
+Proof.
+  induction 1 as [s|s i a s1 tr s2 Hn He Hrun IH]; intros HWL.
+  - unfold owner_prefix. destruct (own s); reflexivity.
+  - pose proof (exec_own _ _ _ _ HWL Hn He) as Hown.
+    specialize (IH (WL_step _ _ _ HWL He)).
+    rewrite accs_cons. unfold owner_prefix in *.
+    destruct a.
+    + destruct Hown as [Ho Ho']. rewrite Ho. rewrite Ho' in IH.
+      change (sections ((i, Lock) :: tr)) with ((i, cnt i tr) :: sections tr).
+      rewrite serial_accs_cons. exact IH.
+    + destruct Hown as [Ho Ho']. rewrite Ho. rewrite Ho' in IH. simpl.
+      rewrite Nat.eqb_refl. simpl. exact IH.
+    + destruct Hown as [Ho Ho']. rewrite Ho. rewrite Ho' in IH. simpl.
+      rewrite Nat.eqb_refl. simpl. f_equal. exact IH.
+    + rewrite Hown in IH. destruct (own s) as [j|]; simpl; auto.
+      destruct (i =? j); exact IH.
+    + rewrite Hown in IH. destruct (own s) as [j|]; simpl; auto.
+      destruct (i =? j); exact IH.
+    + rewrite Hown in IH. destruct (own s) as [j|]; simpl; auto.
+      destruct (i =? j); exact IH.
+    + rewrite Hown in IH. destruct (own s) as [j|]; simpl; auto.
+      destruct (i =? j); exact IH.
+Qed.
+
+(* the global access order of ANY execution of a well-locked handler set is the concatenation
+   of its critical sections in lock-acquisition order: sections never interleave and nothing
+   is accessed outside a section *)
+Lemma sections_serial : forall hs tr s,
+  forallb well_locked hs = true -> run (init hs) tr s ->
+  accs tr = serial_accs (sections tr).
+Proof.
+  intros hs tr s H Hr.
+  apply (sections_serial_gen _ _ _ Hr (WL_init _ H)).
+Qed.
+
+(* ---------------------------------------------------------------- rendezvous *)
+
+Lemma forallb_upd : forall A (P : A -> bool) l k x,
+  forallb P l = true -> P x = true -> forallb P (upd l k x) = true.
+Proof.
+  induction l; destruct k; simpl; intros; auto;
+  apply andb_prop in H as [H1 H2]; apply andb_true_intro; auto.
+Qed.
+
+Lemma forallb_nth : forall A (P : A -> bool) l k y,
+  forallb P l = true -> nth_error l k = Some y -> P y = true.
+Proof.
+  intros. rewrite forallb_forall in H. apply H. eapply nth_error_In; eauto.
+Qed.
+
+Lemma body_ok_nonnil : forall b, body_ok b = true -> b <> [].
+Proof. destruct b; simpl; congruence. Qed.
+
+Lemma fetcher_ok_body : forall b c, body_ok b = true -> fetcher_ok b c = is_open c.
+Proof. destruct b; simpl; intros; try discriminate. rewrite H. reflexivity. Qed.
+
+Lemma reader_state_closed : forall c r, reader_state c r = true -> reader_state CClosed r = true.
+Proof.
+  unfold reader_state. intros c r H. apply orb_prop in H as [H|H].
+  - rewrite H. reflexivity.
+  - apply andb_prop in H as [H _]. rewrite H. simpl. apply orb_true_r.
+Qed.
+
+Lemma binv_step : forall s i s', binv s = true -> exec s i = Some s' -> binv s' = true.
+Proof.
+  intros s i s' Hb He. unfold binv in Hb.
+  destruct s as [t o c]; simpl in *.
+  destruct t as [|c0 rest]; [discriminate|].
+  destruct o; [discriminate|]. simpl in Hb.
+  unfold exec in He; simpl in He.
+  destruct i as [|[|k]]; simpl in He.
+  - (* the creator *)
+    destruct c0 as [|a r]; [discriminate|].
+    destruct rest as [|f rs].
+    + destruct a; simpl in Hb; try discriminate.
+      * inv He. unfold binv; simpl. exact Hb.
+      * apply andb_prop in Hb as [Hb1 Hb3]. apply andb_prop in Hb1 as [Hb1 Hb2].
+        inv He. unfold binv; simpl. rewrite Hb3. simpl.
+        rewrite (fetcher_ok_body _ _ Hb2). rewrite Hb1. reflexivity.
+      * apply andb_prop in Hb as [Hb1 Hb2]. inv He. unfold binv; simpl. exact Hb2.
+    + apply andb_prop in Hb as [Hb1 Hb3]. apply andb_prop in Hb1 as [Hb1 Hb2].
+      unfold creator_post in Hb1. simpl in Hb1. apply andb_prop in Hb1 as [Ha Hr].
+      destruct a; try discriminate.
+      * inv He. unfold binv; simpl. unfold creator_post. rewrite Hr, Hb2, Hb3. reflexivity.
+      * inv He. unfold binv; simpl. unfold creator_post. rewrite Hr, Hb2. simpl.
+        rewrite forallb_app. rewrite Hb3. simpl. unfold reader_state. rewrite Ha. reflexivity.
+  - (* the fetch goroutine *)
+    destruct rest as [|f rs]; [discriminate|]. simpl in He.
+    apply andb_prop in Hb as [Hb1 Hb3]. apply andb_prop in Hb1 as [Hb1 Hb2].
+    destruct f as [|a r]; [discriminate|].
+    simpl in Hb2. apply andb_prop in Hb2 as [Hbody Hopen].
+    destruct a; try discriminate.
+    + (* Access *)
+      simpl in Hbody. inv He. unfold binv; simpl. rewrite Hb1. simpl.
+      rewrite (fetcher_ok_body _ _ Hbody). rewrite Hopen. exact Hb3.
+    + (* Signal *)
+      destruct r; [|discriminate]. inv He. unfold binv; simpl. rewrite Hb1. simpl.
+      clear - Hb3. induction rs; simpl in *; auto.
+      apply andb_prop in Hb3 as [H1 H2]. rewrite (reader_state_closed _ _ H1). auto.
+  - (* a reader *)
+    destruct rest as [|f rs]; [discriminate|]. simpl in He.
+    apply andb_prop in Hb as [Hb1 Hb3]. apply andb_prop in Hb1 as [Hb1 Hb2].
+    destruct (nth_error rs k) as [[|a r]|] eqn:Hk; try discriminate.
+    pose proof (forallb_nth _ _ _ _ _ Hb3 Hk) as Hrd.
+    unfold reader_state in Hrd.
+    destruct a; simpl in Hrd; try discriminate.
+    + (* Access *)
+      apply andb_prop in Hrd as [Hacc Hcl]. inv He. unfold binv; simpl.
+      rewrite Hb1, Hb2. simpl. apply forallb_upd; auto.
+      unfold reader_state. rewrite Hacc, Hcl. apply orb_true_r.
+    + (* Wait *)
+      rewrite orb_false_r in Hrd.
+      assert (Hc : c = CClosed).
+      { destruct c; try discriminate; auto.
+        destruct f; simpl in Hb2; try discriminate.
+        apply andb_prop in Hb2 as [_ Hx]. discriminate. }
+      subst c. inv He. unfold binv; simpl. rewrite Hb1, Hb2. simpl.
+      apply forallb_upd; auto. unfold reader_state. rewrite Hrd. apply orb_true_r.
+Qed.
+
+Lemma binv_run : forall s tr s', run s tr s' -> binv s = true -> binv s' = true.
+Proof. induction 1; intros; auto. apply IHrun. eapply binv_step; eauto. Qed.
+
+Lemma creator_post_app : forall p q,
+  creator_post p = true -> creator_post q = true -> creator_post (p ++ q) = true.
+Proof. unfold creator_post. intros. rewrite forallb_app, H, H0. reflexivity. Qed.
+
+Lemma creator_pre_app : forall p c q,
+  creator_pre p c = true -> creator_post q = true -> creator_pre (p ++ q) c = true.
+Proof.
+  induction p as [|a p IH]; simpl; intros c q Hp Hq; try discriminate.
+  destruct a; try discriminate; auto.
+  - apply andb_prop in Hp as [H1 H2]. rewrite H1. simpl.
+    apply creator_post_app; auto.
+  - apply andb_prop in Hp as [H1 H2]. rewrite H1. simpl. auto.
+Qed.
+
+Lemma creator_post_readers : forall r n, reader_ok r = true -> creator_post (repeat (Spawn r) n) = true.
+Proof. induction n; simpl; intros; auto. unfold creator_post in *. simpl. rewrite H. simpl. auto. Qed.
+
+Lemma binv_init : forall f r n,
+  creator_pre (fetch_system f r 0) CNone = true -> reader_ok r = true ->
+  binv (init [fetch_system f r n]) = true.
+Proof.
+  intros f r n Hf Hr. unfold binv, init; simpl.
+  unfold fetch_system in *. simpl in Hf. rewrite app_nil_r in Hf.
+  apply creator_pre_app; auto. apply creator_post_readers; auto.
+Qed.
+
+(* a reader that is about to access the pod's result slot does so after the fetch goroutine
+   has finished (so it sees the result and no access of the goroutine is concurrent) *)
+Lemma fetch_visible_state : forall s k r,
+  binv s = true -> nth_error (thr s) (S (S k)) = Some (Access :: r) ->
+  ch s = CClosed /\ nth_error (thr s) 1 = Some [].
+Proof.
+  intros s k r Hb Hk. unfold binv in Hb.
+  destruct (thr s) as [|c0 [|f rs]]; simpl in Hk; try discriminate; try (destruct k; discriminate).
+  { apply andb_prop in Hb as [_ Hb]. apply andb_prop in Hb as [Hb Hb3]. apply andb_prop in Hb as [_ Hb2].
+    pose proof (forallb_nth _ _ _ _ _ Hb3 Hk) as Hrd. unfold reader_state in Hrd. simpl in Hrd.
+    apply andb_prop in Hrd as [_ Hcl].
+    destruct (ch s); try discriminate. split; auto.
+    destruct f; auto. simpl in Hb2. apply andb_prop in Hb2 as [_ Hx]. discriminate. }
+Qed.
+
+(* a reader at its wait either blocks (fetch in flight) or passes with the fetch complete;
+   it never slips through on a channel that does not exist yet *)
+Lemma fetch_wait_state : forall s k r,
+  binv s = true -> nth_error (thr s) (S (S k)) = Some (Wait :: r) ->
+  (ch s = COpen /\ exec s (S (S k)) = None) \/ (ch s = CClosed /\ nth_error (thr s) 1 = Some []).
+Proof.
+  intros s k r Hb Hk. unfold binv in Hb. unfold exec. rewrite Hk.
+  destruct (thr s) as [|c0 [|f rs]]; simpl in Hk; try discriminate; try (destruct k; discriminate).
+  { apply andb_prop in Hb as [_ Hb]. apply andb_prop in Hb as [Hb Hb3]. apply andb_prop in Hb as [_ Hb2].
+    destruct f; simpl in Hb2.
+    + destruct (ch s); try discriminate. right. auto.
+    + apply andb_prop in Hb2 as [_ Hx]. destruct (ch s); try discriminate. left. auto. }
+Qed.
+
+Lemma fetch_progress_state : forall s,
+  binv s = true -> finished s = false -> exists i s', exec s i = Some s'.
+Proof.
+  intros s Hb Hf. unfold binv in Hb. unfold finished in Hf. unfold exec.
+  destruct s as [t o c]; simpl in *.
+  destruct t as [|c0 rest]; [discriminate|].
+  destruct o; [discriminate|]. simpl in Hb.
+  destruct c0 as [|a r0].
+  - (* creator done *)
+    destruct rest as [|f rs]; [discriminate|].
+    apply andb_prop in Hb as [Hb Hb3]. apply andb_prop in Hb as [_ Hb2].
+    destruct f as [|a r].
+    + simpl in Hb2. destruct c; try discriminate.
+      simpl in Hf.
+      destruct (unfinished_thread _ Hf) as (k & a & r & Hk).
+      pose proof (forallb_nth _ _ _ _ _ Hb3 Hk) as Hrd. unfold reader_state in Hrd.
+      exists (S (S k)). simpl. rewrite Hk.
+      destruct a; simpl in Hrd; try discriminate; eauto.
+    + exists 1. simpl. simpl in Hb2. apply andb_prop in Hb2 as [Hbody _].
+      destruct a; try discriminate; eauto.
+  - exists 0. simpl.
+    destruct rest as [|f rs].
+    + destruct a; simpl in Hb; try discriminate; eauto.
+    + apply andb_prop in Hb as [Hb _]. apply andb_prop in Hb as [Hb _].
+      unfold creator_post in Hb. simpl in Hb. apply andb_prop in Hb as [Ha _].
+      destruct a; try discriminate; eauto.
+Qed.
+
+Lemma run_sched_run : forall sched s s',
+  run_sched s sched = Some s' -> exists tr, run s tr s' /\ map fst tr = sched.
+Proof.
+  induction sched as [|i r IH]; simpl; intros s s' H.
+  - inv H. exists []. split; constructor.
+  - destruct (exec s i) as [s1|] eqn:He; try discriminate.
+    destruct (IH _ _ H) as (tr & Hr & Hm).
+    assert (exists a, next s i = Some a) as [a Ha].
+    { unfold exec in He. unfold next. destruct (nth_error (thr s) i) as [[|x q]|]; try discriminate. eauto. }
+    exists ((i, a) :: tr). split; [econstructor; eauto|]. simpl. congruence.
+Qed.
